@@ -498,6 +498,11 @@ func alnRandomCase(r *obs.Run, which string) {
 		}
 	} else {
 		M = alnRandomMatrix(rng, aa.a.Len())
+		if rng.Intn(5) == 0 { // a square matrix larger than the alphabet: the extra rows and columns are never addressed
+			M = alnRandomMatrix(rng, aa.a.Len()+1+rng.Intn(3))
+			id = "random-oversize"
+			r.Count("oversize_square_matrices", 1)
+		}
 	}
 	ln := func() int {
 		switch rng.Intn(4) {
@@ -626,22 +631,45 @@ func alnIllTyped(r *obs.Run) {
 		}
 		desc = "mismatched sequence types"
 		run()
-	case 4: // ragged matrix
+	case 4: // ragged or otherwise non-square matrix
 		row := rng.Intn(len(M))
-		if rng.Intn(2) == 0 {
+		switch rng.Intn(5) {
+		case 0:
 			M[row] = M[row][:len(M[row])-1-rng.Intn(2)]
-		} else {
+			desc = fmt.Sprintf("ragged matrix (row %d has %d entries)", row, len(M[row]))
+		case 1:
 			M[row] = append(M[row], 0)
+			desc = fmt.Sprintf("ragged matrix (row %d has %d entries)", row, len(M[row]))
+		case 2: // one row short, another long by the same amount: the number of cells is still n*n
+			other := (row + 1 + rng.Intn(len(M)-1)) % len(M)
+			d := 1 + rng.Intn(2)
+			M[row] = M[row][:len(M[row])-d]
+			M[other] = append(M[other], make([]int, d)...)
+			desc = fmt.Sprintf("ragged matrix with n*n cells (row %d has %d entries, row %d has %d)", row, len(M[row]), other, len(M[other]))
+		case 3: // one row too many
+			M = append(M, make([]int, len(M[0])))
+			desc = fmt.Sprintf("non-square matrix (%d rows of %d entries)", len(M), len(M[0]))
+		default: // every row one entry too long
+			for i := range M {
+				M[i] = append(M[i], -1)
+			}
+			desc = fmt.Sprintf("non-square matrix (%d rows of %d entries)", len(M), len(M[0]))
 		}
 		ref, query = alnMkSeq(x, aa.a, false, rng), alnMkSeq(y, aa.a, false, rng)
-		desc = fmt.Sprintf("ragged matrix (row %d has %d entries)", row, len(M[row]))
-		run()
+		r.Count("nonsquare_matrices", 1)
+		for _, a := range alnAlgs { // every aligner validates the matrix itself
+			alg = a
+			run()
+		}
 	case 5: // undersized square matrix
 		n := 1 + rng.Intn(aa.a.Len()-1)
 		M = alnRandomMatrix(rng, n)
 		ref, query = alnMkSeq(x, aa.a, false, rng), alnMkSeq(y, aa.a, false, rng)
 		desc = fmt.Sprintf("undersized matrix (%dx%d for %d letters)", n, n, aa.a.Len())
-		run()
+		for _, a := range alnAlgs {
+			alg = a
+			run()
+		}
 	default: // alphabet without a leading gap
 		ref, query = alnMkSeq([]byte("acgt"), alphabet.DNA, false, rng), alnMkSeq([]byte("acg"), alphabet.DNA, false, rng)
 		M = alnRandomMatrix(rng, 5)
